@@ -1552,6 +1552,9 @@ class ExtendedToOriginalDecorator:
         try:
             outcome = getattr(self.decorated, "addUnexpectedSuccess", None)
             if outcome is None:
+                if details is not None:
+                    # The failure it becomes has room for the details.
+                    return self.addFailure(test, details=details)
                 # Not every reported test is a TestCase (PlaceHolder has no
                 # fail() and its failureException is None).
                 failure_exception = getattr(test, "failureException", None)
